@@ -251,6 +251,14 @@ func (r *Runner) ApplyOne(ctx context.Context, tarballPath string, opts ApplyOpt
 				return nil, fmt.Errorf("force-retry: the interrupted upgrade %s → %s holds the only rollback snapshot of %s and it does not cover %v; run `osvbngcli upgrade rollback` before applying this tarball",
 					prior.From, prior.To, prior.From, missing)
 			}
+			// The converse matters as much: every path the interrupted
+			// upgrade snapshotted may already hold ITS bytes. A tarball that
+			// does not replace all of them would complete with a mixture of
+			// two versions and report success.
+			if leftover := snapshotEntriesNotInManifest(manifest, meta); len(leftover) > 0 {
+				return nil, fmt.Errorf("force-retry: the interrupted upgrade %s → %s may have replaced %v, which this tarball does not install; run `osvbngcli upgrade rollback` before applying it",
+					prior.From, prior.To, leftover)
+			}
 			snapFrom = prior.From
 			keptSnapshot = meta
 			startPhase = "retry_started"
@@ -718,6 +726,22 @@ func artifactsNotInSnapshot(m *Manifest, meta *SnapshotMetadata) []string {
 		}
 	}
 	return missing
+}
+
+// snapshotEntriesNotInManifest lists the snapshotted paths the manifest has
+// no artifact for.
+func snapshotEntriesNotInManifest(m *Manifest, meta *SnapshotMetadata) []string {
+	installs := make(map[string]bool, len(m.Artifacts))
+	for _, a := range m.Artifacts {
+		installs[a.Path] = true
+	}
+	var leftover []string
+	for _, e := range meta.Entries {
+		if !installs[e.Path] {
+			leftover = append(leftover, e.Path)
+		}
+	}
+	return leftover
 }
 
 // checkPartialApply prevents a fresh apply from clobbering the journal
